@@ -13,6 +13,8 @@
     C04_strip_underscore_excluded     leading `_` ⇒ no function / constant
     C04_strip_hidden_readded          hidden `_` of identifiers is put back
     C04_longest_type(_none)           `_split_uscored_by_type` = longest `_`-boundary prefix, exact remainder
+    C04_symbol_prefix_of_get_type     symbol prefix of a registered type = get-type symbol minus namespace prefix
+                                      minus exactly the final `_get_type` / `_get_gtype`
     C04_method_sound                  `_is_method` ⇒ first parameter is a class/interface/record/union/boxed of
     C04_method_prefix_is_type_prefix  THIS namespace ∧ (annotated ∨ symbol starts with the type's prefix)
     C04_method_owner                  `_setup_method` hangs the function on the type of its first parameter only
@@ -48,6 +50,9 @@
     (`_get_constructor_name`, see `C04_ctor_name_annotated`).  NOT affected: annotated methods
     (`C04_method_owner`), constructors and static functions named through `_split_uscored_by_type`
     (`C04_ctor_name`, `C04_static_sound`), top-level functions.
+  * `C04_symbol_prefix_of_get_type`: the stripped get-type symbol is not one of the two names the code
+    refuses (`get_type`, `_get_gtype`: the type would have no name) and ends in one of the suffixes
+    (`_initparse_function` only collects such functions).
   * `C04_only_public_symbols`, `C04_static_sound`, `C04_ctor_name`, `C04_ctor_name_annotated`, `C04_method_owner`: none.
   * `C04_once`: none (the model's own `dupCid` guard turns "two declarations share a C identifier",
     which C forbids, into an error outcome instead of a hypothesis).
@@ -76,6 +81,11 @@ theorem C04_pattern_shape :
     ∧ Gen.guessConstructorTests = ["endswith(_new)", "in(_new_)", "endswith(_newv)"]
     ∧ Gen.ctorWalkRoots = []
     ∧ Gen.typeMetaTests = ["endswith(_get_type)", "endswith(_get_gtype)"]
+    ∧ Gen.splitTypeAndSymbolPrefixSteps =
+      ["get_type = xmlnode.attrib['get-type']", "ns, name = self._transformer.split_csymbol(get_type)",
+       "assert ns is self._namespace", "if name in ('get_type', '_get_gtype'): fatal",
+       "if name.endswith('_get_type'): type_suffix = '_get_type' else: type_suffix = '_get_gtype'",
+       "return (get_type, name[:-len(type_suffix)])"]
     ∧ Gen.reUpper = [(65, 90)] ∧ Gen.reLowerDigit = [(48, 57), (97, 122)] := by
   decide
 
@@ -260,6 +270,37 @@ end GIVerif.Naming
 
 namespace GIVerif.Naming
 open GIVerif.Py
+
+/-! ### the symbol prefix of a GType-registered type -/
+
+/-- `GDumpParser._split_type_and_symbol_prefix` (pinned by `C04_pattern_shape`): the symbol prefix
+    of a registered class / interface / boxed type / enumeration is its get-type symbol minus the
+    namespace prefix and minus EXACTLY the final `_get_type` / `_get_gtype` — whatever the body
+    is, in particular when the type's own name contains `_get_` or `_get_type`
+    (`http_get_request`, `widget_get_type_helper`). -/
+theorem C04_symbol_prefix_of_get_type (cfg : Cfg) (gt sub body : Str) (ms : List (NsRef × Str))
+    (hs : splitForNamespaces cfg false gt = .ok ms) (hl : lastOf ms = some (NsRef.cur, sub))
+    (hnf : sub ≠ "get_type".toList ∧ sub ≠ "_get_gtype".toList)
+    (hsuf : sub = body ++ "_get_type".toList ∨ sub = body ++ "_get_gtype".toList) :
+    symbolPrefixOfGetType cfg gt = .ok body := by
+  unfold symbolPrefixOfGetType
+  rw [hs]
+  simp only [hl]
+  have h1 : ¬ (sub == "get_type".toList || sub == "_get_gtype".toList) = true := by
+    have := hnf
+    simp only [Bool.or_eq_true, beq_iff_eq]
+    tauto
+  rw [if_neg h1]
+  rcases hsuf with h | h
+  · rw [if_pos (by rw [h]; exact endsWith_append _ _)]
+    rw [h]; simp
+  · rw [if_neg (by rw [h, endsWith_gtype_not_type]; simp)]
+    rw [h]; simp
+
+example : symbolPrefixOfGetType ⟨⟨"Foo".toList, ["Foo".toList], ["foo".toList], []⟩, [], false⟩
+    "foo_http_get_request_get_type".toList = .ok "http_get_request".toList ∧
+  symbolPrefixOfGetType ⟨⟨"Foo".toList, ["Foo".toList], ["foo".toList], []⟩, [], false⟩
+    "foo_widget_get_type_helper_get_gtype".toList = .ok "widget_get_type_helper".toList := by decide
 
 /-! ### C04_once -/
 
